@@ -378,6 +378,13 @@ fn vector_events<F: Fam>(out: &mut Out, rng: &mut Rng, j: &J, mode: &str, profil
             "lens" => lens_event::<F>(out, &p, profile),
             "enc" => enc_event::<F>(out, rng, &p),
             "cut" => crate::frontends::cut_events::<F>(out, rng, &p, true),
+            // the SPECIFICATION's encoding of the packet as input of the acceptance-side drivers (inputs that do
+            // not depend on the library's own encoder)
+            "reenc" | "decoded" | "strict" => {
+                if let Ok(b) = as_bytes(&j["bytes"]) {
+                    crate::accept::spec_bytes_events::<F>(out, mode, &b);
+                }
+            }
             _ => {}
         },
     }
